@@ -123,7 +123,19 @@ impl Registry {
                             prefix = other;
                         }
                     }
-                    return Some(format!("{}{}", prefix, canonicalized));
+                    // The prefix can only be put in front of a name
+                    // that is defined exactly. An alias that expands
+                    // to a prefixed name (`KB` -> `kilobyte`) has to
+                    // stay as it is, `millikilobyte` cannot be read
+                    // back.
+                    let stem = if self.base_units.contains(&canonicalized[..])
+                        || self.units.contains_key(&canonicalized)
+                    {
+                        &canonicalized[..]
+                    } else {
+                        name
+                    };
+                    return Some(format!("{}{}", prefix, stem));
                 }
             }
         }
